@@ -211,6 +211,8 @@ def _enumerate(bo, smt2_text, cap, tout):
     try:
         first = z.ask("\n".join(hard_lines))
         if first.strip():
+            if "timeout" in first and "error" not in first:
+                return [], "time"           # the session timed out while loading (machine under load): nothing is concluded
             return [], "solver:" + first.strip().replace("\n", " ")[:300]
         t0 = time.time()
         while True:
